@@ -263,8 +263,16 @@ def reduceS (entries : List (Nat × Nat)) (startNr pStart pEnd : Nat) : List (Na
 inductive SplitRes | ok (ps : List PeriodOut) | err | panic
   deriving Repr
 
-/-- `splitPeriod` applied to the single-period AdaptationSets -/
-def splitPeriod (a : Asset) (cfg : MpdCfg) (wt : WrapTimes) (sets : List ASOut) (pph : Nat) : SplitRes :=
+/-- `periodsStartAtSegmentStarts` (`fix:` commit): every multiple of the period duration is the start of a segment of the
+looped representation; relative to the loop the period starts are the multiples of `gcd(period, loop)` -/
+def periodsOnStarts (r : Rep) (pd : Nat) : Bool :=
+  let per := pd * r.T
+  if r.dur = 0 ∨ per = 0 ∨ r.N = 0 then false else
+  let g := Nat.gcd per r.dur
+  (List.range ((r.dur + g - 1) / g)).all fun k => r.segs.any (fun s => s.start = (r.seg 0).start + k * g)
+
+/-- `splitPeriod` without the check of `periodsStartAtSegmentStarts` -/
+def splitPeriodCore (a : Asset) (cfg : MpdCfg) (wt : WrapTimes) (sets : List ASOut) (pph : Nat) : SplitRes :=
   if pph = 0 then .panic else                      -- 3600 / 0
   let pd := 3600 / pph
   if a.segDurMS = 0 then .panic else
@@ -287,6 +295,19 @@ def splitPeriod (a : Asset) (cfg : MpdCfg) (wt : WrapTimes) (sets : List ASOut) 
                  startNr := if o.timeAddr then none else some (red.2 % 4294967296) }
     ({ id := p, startS := p * pd, sets := sets' } : PeriodOut)
   .ok ps
+
+/-- the period starts fall on segment starts of the reference representation (no reference: nothing to compare) -/
+def periodsAligned (a : Asset) (pph : Nat) : Bool :=
+  match a.ref? with
+  | some r => periodsOnStarts r (3600 / pph)
+  | none => true
+
+/-- `splitPeriod` applied to the single-period AdaptationSets.  (`fix:` commit) after the comparison with the average
+segment duration, which cannot tell 2.002 s from 2 s when another track is a little shorter, the period starts must be
+segment starts of the reference track. -/
+def splitPeriod (a : Asset) (cfg : MpdCfg) (wt : WrapTimes) (sets : List ASOut) (pph : Nat) : SplitRes :=
+  if pph ≠ 0 ∧ a.segDurMS ≠ 0 ∧ 3600 / pph * 1000 % a.segDurMS = 0 ∧ periodsAligned a pph = false then .err
+  else splitPeriodCore a cfg wt sets pph
 
 /-- `LiveMPD` -/
 def liveMpd (a : Asset) (sets : List ASDef) (cfg : MpdCfg) (nowMS : Nat) : MpdRes :=
